@@ -266,7 +266,9 @@ def write_evidence(ctx, run, t0, violations, extra_assumptions=()):
         'obligations': obligations,
         'discharged': discharged,
         'checker_cmd': 'cd lean && lake build Props.%s && lake env lean <Audit: #print axioms for every theorem of Props/%s.lean>'
-                       % (ctx.prop, ctx.prop) + (' && lake env leanchecker Props.%s' % ctx.prop if ctx.tier == 'thorough' else ''),
+                       % (ctx.prop, ctx.prop) + (' && lake env leanchecker <%d modules: Props.%s and every project module it imports>'
+                                                  % (len(lean.leanchecker_modules), ctx.prop) if lean.leanchecker_modules else ''),
+        'ties_broken': list(lean.broken),
         'trusted_base': common.TRUSTED_BASE + list(getattr(run.mod, 'TRUSTED_EXTRA', [])),
         'theorems': [{'name': o['name'], 'axioms': o['axioms'], 'ok': o['ok']} for o in lean.obligations],
         'generated_tables_changed': lean.gen_changed,
@@ -307,10 +309,37 @@ def do_replay(ctx, mod, path):
     payload = json.loads(Path(path).read_text())
     case = payload.get('case')
     if case is None:
-        print('replay file names a broken obligation, not an input:')
-        print(json.dumps(payload, indent=1))
-        # re-check the obligation: it is still a violation iff it still does not check
-        return 1 if ctx.lean.broken else 0
+        print('replay file names a broken obligation / correspondence, not a failing input:')
+        print(json.dumps(payload, indent=1)[:6000])
+        # still a violation iff an obligation still does not check or a stored disagreement still shows
+        bad = bool(ctx.lean.broken)
+        for b in ctx.lean.broken:
+            print('STILL BROKEN: %s' % b)
+        for ent in payload.get('correspondence_disagreements') or []:
+            c = ent.get('case')
+            if c is None:
+                continue
+            if hasattr(mod, 'case_from_json'):
+                c = mod.case_from_json(c)
+            st, r = _worker(c)
+            if st != 'ok':
+                print('run_impl failed on a stored disagreement case: %s' % (str(r)[:300],))
+                bad = True
+                continue
+            for df in (r.get('d_fail') or []):
+                print('PROPERTY PREDICATE FAILS: [%s] %s' % (df['sig'], df['what']))
+                bad = True
+            ln = r['model_line'] if 'model_line' in r else (mod.model_line(c) if hasattr(mod, 'model_line') else None)
+            if ctx.lean.driver is not None and ln is not None:
+                ans = ctx.lean.run_driver([ln])[0]
+                try:
+                    mobs = mod.model_obs(c, sexp.loads(ans))
+                except Exception as e:
+                    mobs = ('undecodable', ans[:300], str(e))
+                if mobs != r.get('obs'):
+                    print('CORRESPONDENCE STILL DIFFERS on the stored case %s' % json.dumps(common.jsonable(c))[:400])
+                    bad = True
+        return 1 if bad else 0
     if hasattr(mod, 'case_from_json'):
         case = mod.case_from_json(case)
     st, r = _worker(case)
@@ -333,7 +362,12 @@ def do_replay(ctx, mod, path):
     return 1 if bad else 0
 
 
+def _terminate(signum, frame):
+    raise SystemExit(2)            # runs the `finally` clauses: pool shut down, scratch workspace removed
+
+
 def main(argv=None):
+    signal.signal(signal.SIGTERM, _terminate)
     ap = argparse.ArgumentParser()
     ap.add_argument('prop')
     ap.add_argument('--tier', default=os.environ.get('VERIF_TIER', 'quick'), choices=['quick', 'thorough'])
